@@ -1,8 +1,10 @@
 import PedalModel.DriverLoop
+import PedalModel.StaticChecksWire
 open Pedal
 
-/- Line-protocol driver for C08: replace the stub dispatch with the model's request handlers. -/
+/- Line-protocol driver for C08: the static-check model (PedalModel/StaticChecks.lean). -/
 def dispatch : List String → String
+  | "c08" :: ts => Static.handle ts
   | _ => "bad-request"
 
 def main : IO Unit := driverMain dispatch
